@@ -404,6 +404,7 @@ def run(run):
     rstrs = ["", "a", "b", "ab", "ba", "aa", "A", "aB", "a.b", "a-b", "a_b", ".a", "a b", "é", "aé", "🚀", "a\nb", "\n", "]", "[", "-", "0", "9a", "abc",
              "abab", "aab", "b a", "*", "?", "\\", "a*", "[a]"]
     rp = [gen_pat.random_pattern(rng, ext=(j % 2 == 0)) for j in range(int((1500 if quick else 40000) * scale))]
+    rp = [p for p in rp if "-[:" not in p]        # a class as a range endpoint is unspecified (same filter as for the bracket-member family)
     for k in range(0, len(rp), CH):
         jobs.append((rp[k:k + CH], rstrs, "case", True, False, "random"))
         jobs.append((rp[k:k + CH], rstrs, "dbracket", True, (k // CH) % 2 == 1, "random"))
